@@ -30,8 +30,9 @@ PROPERTY = "C08"
 RULE = ("histories of by-name writes (A,B,BA,IL,IH,I,X,Y,U,S,PC,F,FC,FZ,TEMP0..13 and the C/Z flag API) of 32-bit "
         "values (boundary set + random), interleaved with reads and snapshot round trips, each executed on the "
         "Python Registers, the Rust LlamaState and the Rust CoreRuntime by-name facade, every read compared "
-        "with the reference model. Sources: Hypothesis lists (<= 50 ops) + a deterministic sweep of all ordered "
-        "write pairs x boundary values x start states. Non-trivial = the history writes a sub-register after "
+        "with the reference model. Sources: Hypothesis lists (<= 50 ops), seeded pseudo-random histories (<= 50 "
+        "ops, half of them focused on one overlap group) and a deterministic sweep of all ordered write pairs x "
+        "boundary values x start states (+ single-bit value probes). Non-trivial = the history writes a sub-register after "
         "a full-register write of the same register (or vice versa), or interleaves F/FC/FZ(/flag API) writes, "
         "and reads that register afterwards; distinct = hash of the op list.")
 
@@ -470,7 +471,7 @@ def _prefill(variant: int) -> List[Op]:
 
 
 SWEEP_TARGETS: Tuple[str, ...] = CORE_NAMES + ("flag:C", "flag:Z", "TEMP0", "TEMP13")
-SWEEP_VALUES_QUICK = [0, 1, 2, 0xFF, 0x100, 0xFFFFFFFF, 0xA5A5A5A5]
+SWEEP_VALUES_QUICK = [0, 1, 2, 0x100, 0xFFFFFFFF, 0xA5A5A5A5]
 SWEEP_VALUES_THOROUGH = [0, 1, 2, 0xFF, 0x100, 0xFFFF, 0x10000, 0xFFFFF, 0x100000, 0xFFFFFF, 0xFFFFFFFF,
                          0xA5A5A5A5, 0x5A5A5A5A]
 
@@ -496,7 +497,7 @@ def sweep_cases(tier: str) -> Iterator[Tuple[str, List[Op]]]:
                         yield "sweep:pairs", pre + [_write_op(t1, v1), ["all"], _write_op(t2, v2), ["all"],
                                                     ["rt" if k % 2 else "rtb"], ["all"]]
     # single-bit probes: every register x every bit of the written value, from every start state
-    for variant in (0, 1, 2):
+    for variant in variants:
         pre = _prefill(variant)
         for t in CORE_NAMES + ("flag:C", "flag:Z") + TEMP_NAMES:
             for bit in range(32):
@@ -536,6 +537,62 @@ def _hyp_sequences(seed: int, n: int, min_ops: int = 1) -> List[List[Op]]:
     return seqs
 
 
+def stream_sequences(seed: int, shard: int, n: int) -> List[List[Op]]:
+    """Cheap deterministic pseudo-random histories (gen_state.Stream): volume next to Hypothesis' variety.
+    Half of them concentrate their writes on one overlap group (BA / I / F) to force alias interleavings."""
+    from ..gen_state import Stream
+
+    out: List[List[Op]] = []
+    focus_groups = ("BA", "I", "F")
+    for j in range(n):
+        st = Stream(seed, 0xC08, shard, j)
+        length = 3 + st.below(48)
+        focus = MEMBERS[st.choice(focus_groups)] if st.chance(1, 2) else None
+        dense = st.chance(1, 2)
+
+        def name() -> str:
+            if focus is not None and st.chance(7, 10):
+                return st.choice(focus)
+            if st.chance(1, 5):
+                return st.choice(TEMP_NAMES)
+            return st.choice(CORE_NAMES)
+
+        def value() -> int:
+            k = st.below(4)
+            if k < 2:
+                return st.choice(BOUNDARY)
+            return st.u32() if k == 2 else st.u32() & 0xFFFF
+
+        ops: List[Op] = []
+        for _ in range(length):
+            r = st.below(100)
+            if r < 58:
+                ops.append(["set", name(), value()])
+            elif r < 68:
+                fl = st.choice(("C", "Z"))
+                if focus is not None and "F" not in focus and st.chance(1, 2):
+                    ops.append(["set", name(), value()])
+                else:
+                    ops.append(["setflag", fl, value()])
+            elif r < 80:
+                ops.append(["get", name()])
+            elif r < 84:
+                ops.append(["getflag", st.choice(("C", "Z"))])
+            elif r < 92:
+                ops.append(["all"])
+            elif r < 95:
+                ops.append(["rt"])
+            elif r < 98:
+                ops.append(["rtb"])
+            else:
+                ops.append(["collect"])
+            if dense and ops[-1][0] in ("set", "setflag"):
+                ops.append(["all"])
+        ops.append(["all"])
+        out.append(ops)
+    return out
+
+
 # --------------------------------------------------------------------------------------------------------
 # Shards
 # --------------------------------------------------------------------------------------------------------
@@ -568,6 +625,8 @@ def _shard(task: Tuple[str, int, int, int, str, int]) -> Report:
         # odd shards generate long histories only (Hypothesis otherwise favours short lists)
         items = [("hypothesis", ops) for ops in _hyp_sequences(seed, n, 1 if shard % 2 == 0 else 16)]
         eval_batch(items, rep)
+    elif kind == "stream":
+        eval_batch([("stream", ops) for ops in stream_sequences(seed, shard, n)], rep)
     else:
         items = [(fam, ops) for k, (fam, ops) in enumerate(sweep_cases(tier)) if k % nshards == shard]
         eval_batch(items, rep)
@@ -585,7 +644,8 @@ def run(ctx: Ctx) -> Report:
     if list(names or []) != list(NAMES):
         raise HarnessError(f"register name order mismatch between harness sides: {names}")
     n_hyp_shards = ctx.pick(16, 64)
-    n_hyp = ctx.pick(250, 1500)
+    n_hyp = ctx.pick(200, 500)
+    n_stream = ctx.pick(500, 1200)
     n_sweep = ctx.pick(16, 32)
     tasks: List[Tuple[str, int, int, int, str, int]] = []
     for i in range(n_sweep):
@@ -594,6 +654,7 @@ def run(ctx: Ctx) -> Report:
         # not ctx.shard_seed(i): mix32(seed, i, ..) xors seed and i before mixing, so small seeds would only
         # permute one set of shard seeds (seed 1 shard 1 == seed 2 shard 2); mix the run seed in first.
         tasks.append(("hyp", i, n_hyp_shards, mix32(0xC08, ctx.seed, i, 0x5EED), ctx.tier, n_hyp))
+        tasks.append(("stream", i, n_hyp_shards, mix32(0xC08, ctx.seed, 0x57EA), ctx.tier, n_stream))
     reports = ctx.pmap(_shard, tasks)
     rep = ctx.merge_reports(reports)
     check_arch_table(rep)
@@ -601,6 +662,7 @@ def run(ctx: Ctx) -> Report:
     rep.exhaustive = False  # the sweep family is complete (extra.sweep_complete) but histories are unbounded
     rep.extra["sweep_complete"] = True
     rep.extra["hypothesis_sequences"] = n_hyp_shards * n_hyp
+    rep.extra["stream_sequences"] = n_hyp_shards * n_stream
     rep.assumptions = [
         "pointer registers X, Y, U, S are 20 bits as the property statement says (the README table says 24)",
         "FC/FZ (and the C/Z flag API) are 1-bit registers: a written value is truncated to bit 0 (README: size 1)",
